@@ -242,10 +242,18 @@ def r8_5(ctx: Ctx) -> None:
     pref_names = sorted({unparse(x) for x in ast.walk(G) if isinstance(x, (ast.Name, ast.Attribute)) and "prefix" in unparse(x)})
     met_names = sorted({unparse(x) for x in ast.walk(G) if isinstance(x, (ast.Name, ast.Attribute)) and "metric" in unparse(x)
                         and not any(isinstance(y, ast.Attribute) and y is not x and unparse(x) in unparse(y) for y in ast.walk(G) if isinstance(y, ast.Attribute) and y is not x)})
-    if len(pref_names) != 2 or len(met_names) != 2:
-        raise AnalysisError(f"R8.5: cannot identify (candidate, best) operands for prefix {pref_names} / metric {met_names}")
-    # which of each pair is the running best? the one stored in the update block
     stored = {unparse(t): unparse(s.value) for s in cur_if.body if isinstance(s, ast.Assign) for t in s.targets}
+    if len(pref_names) != 2:
+        raise AnalysisError(f"R8.5: cannot identify (candidate, best) operands for the prefix length: {pref_names}")
+    if len(met_names) == 0:
+        # the guard does not consult the metric at all: evaluate it anyway (it will fail the tie cases) using the metric
+        # variables of the update block
+        bm = next((t for t in stored if "metric" in t), "<best metric>")
+        cm = stored.get(bm, "<candidate metric>")
+        met_names = [bm, cm]
+    elif len(met_names) != 2:
+        raise AnalysisError(f"R8.5: cannot identify (candidate, best) operands for the metric: {met_names}")
+    # which of each pair is the running best? the one stored in the update block
     bp = next((x for x in pref_names if x in stored), None)
     bm = next((x for x in met_names if x in stored), None)
     if bp is None or bm is None:
